@@ -21,14 +21,14 @@ BUDGET = {"quick": 400, "thorough": 12000}
 MIN_NONTRIVIAL = {"quick": 200, "thorough": 3000}
 REQUIRED_FUNCTIONS = ["utils.py:match_template", "utils.py:to_DiGraph", "program.py:BlackbirdProgram.__call__"]
 FUNCTIONS = REQUIRED_FUNCTIONS + ["utils.py:match_template.<locals>.node_match"]
-REQUIRED_TAGS = ["reordered", "repeated-parameter", "form:bare", "form:negated", "form:affine", "form:divided", "neg:gate", "neg:modes", "neg:modes-permuted", "neg:order", "neg:version", "neg:target"]
+REQUIRED_TAGS = ["reordered", "repeated-parameter", "form:bare", "form:negated", "form:affine", "form:divided", "neg:gate", "neg:modes", "neg:modes-permuted", "neg:modes-same-digits", "neg:order", "neg:version", "neg:version-same-value", "neg:target"]
 ASSUMPTIONS = ["per-mode order = order of operations sharing a mode (register arguments are not generated here)", "returned values are compared at relative 1e-9"]
 
 
 def build(rng, g):
     G = gen.Gen(rng, g, layout=0.0, funcs=False, hostile_names=0.3)
     nm = rng.randint(1, 5)
-    pool = rng.sample(range(0, 9), nm)
+    pool = rng.sample(list(range(0, 9)) + ([10, 11, 12, 21, 100, 101] if rng.random() < 0.3 else []), nm)
     n = rng.randint(1, 15)
     nparams = rng.randint(1, 4)
     if rng.random() < 0.05:
@@ -181,6 +181,20 @@ def check_case(ctx, text, vals, tags, witness=None):
     multi = [i for i in range(n) if len(set(P.operations[i]["modes"])) >= 2]
     if multi:
         edits += ["modes-permuted", "modes-permuted"]
+    # a different mode list whose digits read the same when written without separators ([1, 12] vs [11, 2], [12] vs [1, 2])
+    samedigits = []
+    for i in range(n):
+        ms = [int(m) for m in P.operations[i]["modes"]]
+        digits = "".join(str(m) for m in ms)
+        for cut in range(1, len(digits)):
+            alt = [int(digits[:cut]), int(digits[cut:])] if digits[cut] != "0" else None
+            if alt and alt != ms and len(set(alt)) == len(alt):
+                samedigits.append((i, alt))
+        if len(ms) >= 2 and len(digits) <= 3:
+            samedigits.append((i, [int(digits)]))
+    if samedigits:
+        edits += ["modes-same-digits"] * 2
+    edits += ["version-same-value"]
     edit = rng.choice(edits)
     ops = copy.deepcopy(P.operations)
     ver = tgt = None
@@ -192,6 +206,12 @@ def check_case(ctx, text, vals, tags, witness=None):
     elif edit == "modes-permuted":
         o = ops[rng.choice(multi)]
         o["modes"] = o["modes"][1:] + o["modes"][:1]
+    elif edit == "modes-same-digits":
+        i, alt = rng.choice(samedigits)
+        ops[i]["modes"] = alt
+    elif edit == "version-same-value":
+        # another version text with the same numeric value
+        ver = {"1.0": rng.choice(["1.00", "1.0e0", "01.0"])}.get(P.version, P.version + "0")
     elif edit == "version":
         ver = "2.0"
     elif edit == "target":
